@@ -9,7 +9,7 @@ let op_of = function 0 -> XNone | 1 -> XFlipH | 2 -> XFlipV | 3 -> XTranspose | 
 let oset_of = function 0 -> OUnset | 1 -> OPos | _ -> ONeg
 let err_name = function ENotPerfect -> "NotPerfect" | EBadCrop -> "BadCrop" | ECropExt -> "CropExt"
                       | ENoGray -> "NoGray" | EAlign -> "Align" | EQuantReuse -> "QuantReuse" | EUnknownSubsamp -> "UnknownSubsamp"
-let sentinel = List.init 64 (fun _ -> z_of_int 5555)
+let sentinel = List.init 64 (fun _ -> z_of_int 7777)   (* = the harness's fill of source padding blocks *)
 
 let parse_image (a : int array) =
   let pos = ref 0 in
@@ -69,10 +69,12 @@ let () = iter_lines (fun line ->
          let ts = List.init n (fun i ->
            { t_op = op_of (g i 0); t_perfect = g i 1 = 1; t_trim = g i 2 = 1; t_gray = g i 3 = 1; t_crop = g i 4 = 1;
              t_x = z_of_int (g i 9); t_y = z_of_int (g i 11); t_w = z_of_int (g i 5); t_h = z_of_int (g i 7) }) in
+         (* tj3TransformBufSize of every request first, then the transform *)
+         let bs = String.concat " " (List.map (fun t -> string_of_int (int_of_z (tj_transform_buf_size im t))) ts) in
          match tj_transform im ts with
-         | Inl e -> print_endline ("err " ^ err_name e)
+         | Inl e -> print_endline ("bs " ^ bs ^ " ; err " ^ err_name e)
          | Inr outs ->
-           Buffer.add_string b "ok";
+           Buffer.add_string b ("bs " ^ bs ^ " ; ok");
            List.iter (fun o -> Buffer.add_string b " | "; dump_image b o) outs;
            print_endline (Buffer.contents b)
        end else begin
@@ -85,7 +87,23 @@ let () = iter_lines (fun line ->
                    xo_slow = false } in
          match transform im o with
          | Inl e -> print_endline ("err " ^ err_name e)
-         | Inr out -> Buffer.add_string b "ok | "; dump_image b out; print_endline (Buffer.contents b)
+         | Inr out ->
+           Buffer.add_string b "ok | "; dump_image b out;
+           if path = "inj" then begin
+             (* whole destination arrays incl. the padding strips the loop nests write *)
+             Buffer.add_string b " | pad";
+             (match transform_pad im o with
+              | Inl _ -> ()
+              | Inr l -> List.iter (fun ((wit, hit), arr) ->
+                  let wi = int_of_z wit and hi = int_of_z hit in
+                  Buffer.add_string b (Printf.sprintf " %d %d" wi hi);
+                  for y = 0 to hi - 1 do for x = 0 to wi - 1 do
+                    match arr (z_of_int x) (z_of_int y) with
+                    | Some blk -> List.iter (fun v -> Buffer.add_char b ' '; Buffer.add_string b (string_of_int (int_of_z v))) blk
+                    | None -> Buffer.add_string b " undefined"
+                  done done) l)
+           end;
+           print_endline (Buffer.contents b)
        end
      | _ -> print_endline "?")
   | _ -> print_endline "?")
